@@ -101,3 +101,16 @@ CHECKS.update({
 })
 for _k in list(CHECKS):
     NOT_APPLICABLE.pop(_k, None)
+
+CHECKS.update({
+    "C15": dict(level="exploration", ref="DESIGN.md section 6 C15",
+                text="Canonical traces (solution sequence + 13 statistics) of a deterministic case list are produced in five fresh processes per batch - compiled twice, interpreted, and both modes after a random history of earlier solver use (abandoned and suspended solvers, optimisations, registrations, reuse and split of the same problem object) - and must be identical case by case; the problem's observable fields must survive solver construction.",
+                note="only differences visible in outputs or statistics are seen; each axis is a separate child process because the mode is read at import time",
+                technique="trace recorder at the API boundary + cross-process/mode/history trace comparison"),
+    "C16": dict(level="exploration", ref="DESIGN.md section 6 C16",
+                text="In-contract workloads run under a source-level bounds sanitizer (import hook rewriting every non-literal subscript of nucs, 643 sites, flags out-of-range, computed negative and clamped-slice indices), under numba's bounds-check build with an unraisable-exception hook that halts on the first report, and with red-zone canaries around the stacks; the evidence lists reached / instrumented sites and the unreached ones.",
+                note="a clean run is not memory safety: only reached sites with the index values that occurred; compiled-mode negative wrap-around is inferred from the interpreted sanitizer on the same source",
+                technique="bounds sanitizers: AST-instrumented interpretation + NUMBA_BOUNDSCHECK build + red-zone canaries"),
+})
+for _k in list(CHECKS):
+    NOT_APPLICABLE.pop(_k, None)
